@@ -107,6 +107,62 @@ def many_patches_jobs(seed: int, start: int = 0, classes=("ih5", "mf"), npatches
     return jobs
 
 
+def close_variant_jobs(seed: int, start: int = 0, classes=("ih5", "mf")) -> List[Dict[str, Any]]:
+    """Every way of letting go of a writable handle (close, close without commit, leaving a `with` block normally or
+    by an exception), right after a commit and with a patch in progress, on records with one to three containers;
+    afterwards the record is opened again by name and by list."""
+    jobs = []
+    tid = start
+    ways = [{"commit": True}, {"commit": False}, {"commit": True, "how": "exit"}, {"commit": True, "how": "exit_exc"}]
+    for cls in classes:
+        for npatch in (0, 1, 2):
+            for inprogress in (False, True):
+                for w in ways:
+                    tid += 1
+                    sc: List[Dict[str, Any]] = [{"op": "open", "mode": "w", "rname": "$main", "bylist": False}, {"op": "write"}, {"op": "commit"}]
+                    for _ in range(npatch):
+                        sc += [{"op": "create_patch"}, {"op": "write"}, {"op": "commit"}]
+                    if inprogress:
+                        sc += [{"op": "create_patch"}, {"op": "write"}]
+                    sc += [dict(w, op="close"),
+                           {"op": "open", "mode": "r", "rname": "$main", "bylist": False}, {"op": "close", "commit": True},
+                           {"op": "open", "mode": "r+", "rname": "$main", "bylist": True}, {"op": "write"}, dict(w, op="close"),
+                           {"op": "open", "mode": "a", "rname": "$main", "bylist": False}, {"op": "close", "commit": True},
+                           {"op": "open", "mode": "r", "rname": "$main", "bylist": True}, {"op": "close", "commit": True}]
+                    jobs.append({"tid": tid, "cls": cls, "seed": seed + tid, "nameset": tid % 4, "script": sc,
+                                 "label": f"close_variant/{npatch}/{inprogress}/{w.get('how', 'close')}/{w['commit']}"})
+    return jobs
+
+
+def cross_class_jobs(seed: int, start: int = 0) -> List[Dict[str, Any]]:
+    """Records written through one class and read, merged and patched further through the other one (IH5MFRecord opens
+    records without manifest extension; IH5Record ignores the extension)."""
+    jobs = []
+    tid = start
+    for creator, other in (("ih5", "mf"), ("mf", "ih5")):
+        for npatch in (0, 1, 3):
+            for variant in (0, 1):
+                tid += 1
+                sc: List[Dict[str, Any]] = [{"op": "open", "mode": "w", "rname": "$main", "bylist": False}, {"op": "write"}, {"op": "commit"}]
+                for _ in range(npatch):
+                    sc += [{"op": "create_patch"}, {"op": "write"}, {"op": "write"}, {"op": "commit"}]
+                sc += [{"op": "close", "commit": True},
+                       {"op": "open", "mode": "r", "rname": "$main", "bylist": variant == 1, "as": other},
+                       {"op": "merge", "target": "merged1"}, {"op": "close", "commit": True},
+                       {"op": "open", "mode": "r", "rname": "merged1", "bylist": False}, {"op": "close", "commit": True},
+                       {"op": "open", "mode": "r", "rname": "merged1", "bylist": False, "as": other}, {"op": "close", "commit": True}]
+                if variant == 1:
+                    sc += [{"op": "open", "mode": "r+", "rname": "$main", "bylist": False, "as": other}, {"op": "write"},
+                           {"op": "close", "commit": True},
+                           {"op": "open", "mode": "r", "rname": "$main", "bylist": False}, {"op": "merge", "target": "merged2"},
+                           {"op": "close", "commit": True},
+                           {"op": "open", "mode": "r", "rname": "$main", "bylist": True, "as": other}, {"op": "close", "commit": True},
+                           {"op": "open", "mode": "r", "rname": "merged2", "bylist": False, "as": other}, {"op": "close", "commit": True}]
+                jobs.append({"tid": tid, "cls": creator, "seed": seed + tid, "nameset": tid % 4, "script": sc,
+                             "label": f"cross_class/{creator}/{npatch}/{variant}"})
+    return jobs
+
+
 def random_proto_jobs(n: int, nops: int, seed: int, start: int = 0, classes=("ih5", "mf")) -> List[Dict[str, Any]]:
     jobs = []
     tid = start
